@@ -407,8 +407,8 @@ class CommandMapProtocol(Protocol):
         from pyvc.protocol import encode_arg
 
         key = st.force(key)
-        if isinstance(key, tuple):
-            return None  # command maps bind key names (strings); a mouse-event tuple is never bound
+        if isinstance(key, tuple) or key is None:
+            return None  # command maps bind key names (strings); a mouse-event tuple or None is never bound
         f = z3.Function("CommandMap.get", z3.IntSort(), z3.IntSort())
         t = encode_arg(st, key)[0]
         if t.sort() != z3.IntSort():
